@@ -347,6 +347,11 @@ class Adjustments:
                 "IPv4 is disabled but IPv6 is not available. Cowardly refusing to start."
             )
 
+        if not self.ipv4 and not self.ipv6:
+            raise ValueError(
+                "IPv4 and IPv6 are both disabled. Cowardly refusing to start."
+            )
+
         if self.ipv4 and not self.ipv6:
             enabled_families = socket.AF_INET
 
